@@ -353,11 +353,21 @@ def cyclic_check(sc):
         b_ = [a, 7]
         a["b"] = b_
         d = {"a": a, "z": 0}
+    import signal
+
+    class _Hang(BaseException):
+        pass
+
+    def _alarm(signum, frame):
+        raise _Hang()
+
     expr = Builder([]).steps(sc["path"])
     t = time.time()
     it = find(expr, d)
     got = []
     outcome = None
+    old = signal.signal(signal.SIGALRM, _alarm)
+    signal.alarm(int(sc.get("timeout", 30)))
     try:
         for _ in range(sc["take"]):
             got.append(next(it))
@@ -368,6 +378,16 @@ def cyclic_check(sc):
         outcome = "stop"
     except RecursionError:
         return "RecursionError on a cyclic structure", True
+    except _Hang:
+        return f"hangs: neither a result nor InfiniteLoopDetected within {sc.get('timeout', 30)} s", True
+    except Exception as e:  # noqa
+        if any(c == "InfiniteLoopDetected" for c in exc_chain(e)):
+            outcome = "loop"
+        else:
+            return f"{type(e).__name__} on a cyclic structure", True
+    finally:
+        signal.alarm(0)
+        signal.signal(signal.SIGALRM, old)
     wall = time.time() - t
     if wall > 20:
         return f"took {wall:.1f}s", True
